@@ -62,6 +62,12 @@ def main():
     for f in demo_files:
         os.makedirs(os.path.dirname(f"{wt}/{places[f]}"), exist_ok=True)
         shutil.copy(f"{out}/demo/{f}", f"{wt}/{places[f]}")
+    # auxiliary files of a demonstration (shared mocks, `include!`d sources) go next to its tests
+    aux = [f for f in os.listdir(f"{out}/demo") if not f.endswith(".rs") and f != "RUN.md" and os.path.isfile(f"{out}/demo/{f}")]
+    if aux and demo_files:
+        auxdir = os.path.dirname(f"{wt}/{places[demo_files[0]]}")
+        for f in aux:
+            shutil.copy(f"{out}/demo/{f}", f"{auxdir}/{f}")
     clean_ok = True
     for c in cmds:
         rc, o = sh(c, wt)
@@ -79,6 +85,12 @@ def main():
     # 3. existing tests with the patch (demo files removed)
     for f in demo_files:
         os.remove(f"{wt}/{places[f]}")
+    if aux and demo_files:
+        for f in aux:
+            try:
+                os.remove(f"{auxdir}/{f}")
+            except OSError:
+                pass
     sh("git clean -fdq -e out -e target", wt)
     suite_ok = True
     for cr in touched:
